@@ -111,6 +111,7 @@ func (c *Cluster) applyAPI(e Event) error {
 			id, addr = c.Nodes[k].ID, c.Nodes[k].Addr
 		}
 		op := &ClientOp{ID: len(c.Ops), Kind: strings.ToLower(f[0]), Node: e.N, Target: c.idIndex(id), Voter: arg(2) == "voter", TargetID: id}
+		c.NoteSubmission(op)
 		c.Ops = append(c.Ops, op)
 		c.Hist = append(c.Hist, fmt.Sprintf("i%d", op.ID))
 		if f[0] == "Add" {
